@@ -375,6 +375,9 @@ func (p *Program) staticLoc(ms *modSet, env map[string]types.Type, loc string, f
 	case loc == "heap":
 		ms.all = true
 		return true
+	case loc == "jsonobjects":
+		ms.addMap(types.NewMap(types.Typ[types.String], types.NewInterfaceType(nil, nil)))
+		return true
 	case strings.HasPrefix(loc, "ghost "):
 		g := strings.TrimSpace(loc[6:])
 		if i := strings.Index(g, "["); i > 0 {
